@@ -46,6 +46,10 @@ pub fn install_panic_hook() {
                 }
             }
         }
+        // outside of `catch` nobody will look at LAST_PANIC: the process is about to die with status 101
+        if CATCH_DEPTH.with(|d| d.get()) == 0 {
+            eprintln!("egv harness: uncaught panic at {}: {}", loc, msg);
+        }
         LAST_PANIC.with(|p| *p.borrow_mut() = Some((msg, loc)));
     }));
 }
@@ -56,9 +60,15 @@ pub struct Panicked {
 }
 
 /// Run `f`; a panic in the code under test is data, never a harness crash.
+thread_local! {
+    static CATCH_DEPTH: std::cell::Cell<u32> = const { std::cell::Cell::new(0) };
+}
 pub fn catch<T>(f: impl FnOnce() -> T) -> Result<T, Panicked> {
     LAST_PANIC.with(|p| *p.borrow_mut() = None);
-    match catch_unwind(AssertUnwindSafe(f)) {
+    CATCH_DEPTH.with(|d| d.set(d.get() + 1));
+    let r = catch_unwind(AssertUnwindSafe(f));
+    CATCH_DEPTH.with(|d| d.set(d.get() - 1));
+    match r {
         Ok(v) => Ok(v),
         Err(_) => {
             let (msg, loc) = LAST_PANIC
